@@ -9,5 +9,6 @@
 //	c08.peers    invalid peer points refused at every step where a peer value enters
 //	c08.ecdh     plain ECDH against x([a]B)
 //	c08.implicitsig  the byte-oriented t = (d + x~ r) mod n through the verif hook, steered onto reduction boundaries
+//	c08.encodings  alternative encodings of one value at every entry point that takes encoded input (accept-set)
 //	c08.history  object histories: long-lived key objects, interleaved / restarted / failed sessions, Destroy() anywhere
 package c08
